@@ -415,7 +415,7 @@ def duplicate_milestone(rng, s, b):
     return "two actions claim one milestone"
 
 
-def mutate(rng, n_actions=None, only=None, threads=False):
+def mutate(rng, n_actions=None, only=None, threads=False):  # noqa
     """(scenario, mutator_name, owner, description) for a fresh conformant scenario with one fault."""
     names = sorted(MUTATORS) if only is None else [m for m in sorted(MUTATORS) if MUTATORS[m][0] in only or m in only]
     for _ in range(80):
@@ -427,3 +427,20 @@ def mutate(rng, n_actions=None, only=None, threads=False):
         if desc is not None:
             return s, name, owner, desc
     raise RuntimeError("no applicable mutator among %s" % names)
+
+
+@mutator("C10")
+def duplicate_composite(rng, s, b):
+    """Two checkpoints with the same gate type and the same set of dependencies (reordered)."""
+    cps = [c for c in s["checkpoints"]]
+    if len(cps) < 2:
+        return None
+    c1, c2 = rng.sample(cps, 2)
+    deps = list(c1["deps"])
+    rng.shuffle(deps)
+    c2["deps"] = deps
+    c2["gate"] = c1["gate"]
+    return "two checkpoints with equal gate type and dependency set (reordered)"
+
+
+FORCE_ID_SPELLING = {"identical_operands", "duplicate_composite"}
